@@ -1,9 +1,10 @@
 #!/bin/sh
-# usage: try_refactor.sh <patch.diff>  -- applies to /repo, runs every quick check, reverts; prints only non-clean results
-P="$1"
+# usage: try_refactor.sh <patch.diff> [PROP...] -- applies to /repo, runs every (or the given) quick check, reverts; prints only non-clean results (deduplicated)
+P="$1"; shift
+PROPS="${*:-C01 C02 C03 C04 C05 C06 C07 C08 C09 C10 C11 C12 C13 C14 C15 C16}"
 git -C /repo apply "$P" || { echo "PATCH DOES NOT APPLY"; exit 9; }
-for prop in C01 C02 C03 C04 C05 C06 C07 C08 C09 C10 C11 C12 C13 C14 C15 C16; do
+for prop in $PROPS; do
   out=$(QV_NO_EVIDENCE=1 /verif/check "$prop" --tier quick 2>&1); code=$?
-  if [ $code -ne 0 ]; then echo "  $prop exit=$code"; echo "$out" | grep -E "rule=|ANALYSIS-ERROR" | cut -c1-260 | sed 's/^/      /'; fi
+  if [ $code -ne 0 ]; then echo "  $prop exit=$code"; echo "$out" | grep -E "rule=|ANALYSIS-ERROR" | sed -E 's/^ +//; s/\(rank [0-9].*//; s/: input per-.*: /: .. /' | cut -c1-230 | sort | uniq -c | sort -rn | head -${MAXL:-14} | sed 's/^/      /'; fi
 done
 git -C /repo checkout -- .
